@@ -85,6 +85,14 @@ def run(ctx):
     ctx.check("size-gate", "collect_requests/num_bytes-is-recv-count", a[1] == count and a[0] == ("field", ("param", cfn.path, 1), "buf") and ct[2][1] == a[0],
               "nonce_from_request(&self.buf, count returned by recv_from(&mut self.buf), ..)", "nonce_from_request is called with %s" % [fmt(x) for x in a[:2]], cfn.loc(calls[0]))
 
+    # the receive buffer must be able to hold more than MAX bytes: recv_from silently truncates a longer datagram to the buffer
+    # length, so with a buffer of MAX bytes or less an oversized datagram would be indistinguishable from a MAX-sized one
+    from prover import term_array_len
+    blen = term_array_len(W, cev, a[0])
+    ctx.check("size-gate", "receive-buffer-exceeds-MAX", blen is not None and blen > MAX, "receive buffer holds %s bytes > MAX_REQUEST_LENGTH: oversized datagrams are seen with their real length" % blen,
+              "the receive buffer holds %s bytes, not more than MAX_REQUEST_LENGTH (%d): recv_from truncates longer datagrams, so the `> MAX` check can never fire and oversized datagrams are answered" % (blen, MAX),
+              cfn.loc(calls[0]))
+
     # ------------------------------------------------------------------ (2) well-formedness gates
     nonce_bound = {}
     for fnp, v in ((CLASSIC, "Google"), (RFC, "RfcDraft13")):
